@@ -130,6 +130,8 @@ def make_description(case, container):
             _connectivity=layout,
             _exclude_gate_edge_ids=[EdgeIDObj.from_qubit_ids(a, b) for a, b in case.get("exclude_edges", [])],
             _exclude_gate_qubit_ids=[QubitIDObj(n) for n in case.get("exclude_qubits", [])],
+            _exclude_readout_qubit_ids=[QubitIDObj(n) for n in case.get("exclude_readout", [])],
+            _exclude_rotation_qubit_ids=[QubitIDObj(n) for n in case.get("exclude_rotation", [])],
             _only_required_parking_operations=case.get("only_required", False),
         )
     raise ValueError(kind)
